@@ -1,5 +1,5 @@
 (* Model of misc.wrap_line (as repaired) and of the writer loop of Shelxfile.write_shelx_file.
-   wrap_line(line): lines shorter than 79 characters are returned unchanged; otherwise
+   wrap_line(line): lines of at most 80 characters are returned unchanged; otherwise
      textwrap.wrap(line, 77, subsequent_indent='  ', drop_whitespace=False, replace_whitespace=False,
                    break_long_words=False, break_on_hyphens=False, expand_tabs=False)
    cuts the text into maximal runs of blank / non-blank characters (regex (\s+) split), fills lines greedily
@@ -46,7 +46,7 @@ Fixpoint mark_lines (first : bool) (ps : list (list str)) : list str :=
   | p :: r => ((if first then [] else " "%char :: indent) ++ concat p ++ cont_mark) :: mark_lines false r
   end.
 Definition wrap_lines (s : str) : list str :=
-  if (length s <? 79)%nat then [s]
+  if (length s <? 81)%nat then [s]
   else match pieces s with
        | [] => [[]]                       (* unreachable for non-empty s; textwrap returns [] only for '' *)
        | ps => mark_lines true ps
